@@ -59,12 +59,12 @@ def kwNot (s : Inp) : Option Inp :=
   | some r => some r
   | none => stripPrefix ['-'] s
 
-def unicode3000 : List Char := "UNICODE3000".toList
+/-- U+3000 IDEOGRAPHIC SPACE (`"\u{3000}"` in `INVALID_TERM_STARTS`; it is *not* `WHITESPACE`) -/
+def ideographicSpace : Char := '\u3000'
 
-/-- the single characters listed in `INVALID_TERM_STARTS` (besides WHITESPACE and the literal
-    string "UNICODE3000") -/
+/-- `INVALID_TERM_STARTS`: WHITESPACE, U+3000 and the listed single characters -/
 def isInvalidStartChar (c : Char) : Bool :=
-  isWs c || c == '"' || c == '(' || c == ')' || c == '[' || c == ']' || c == '{' || c == '}' ||
+  isWs c || c == '\u3000' || c == '"' || c == '(' || c == ')' || c == '[' || c == ']' || c == '{' || c == '}' ||
   c == '+' || c == '-' || c == '!' || c == ':' || c == '~' || c == '^' || c == '?' || c == '*' ||
   c == '\\' || c == '>' || c == '=' || c == '<'
 
@@ -72,7 +72,7 @@ def isInvalidStartChar (c : Char) : Bool :=
 def invalidStart (s : Inp) : Bool :=
   match s with
   | [] => false
-  | c :: _ => isInvalidStartChar c || startsWith unicode3000 s
+  | c :: _ => isInvalidStartChar c
 
 /-- `TERM_END_CHAR = _{ WHITESPACE | RPAREN | RSQRBRACKET | RBRACKET | EOI }` matches at `s`
     (only ever used under `&`) -/
